@@ -119,7 +119,7 @@ func c15Tables(c *Ctx, p *Prog, m *Model) {
 			for _, s := range sources(b.Instrs[len(b.Instrs)-1].(*ssa.Return).Results[0]) {
 				if ex, ok := s.(*ssa.Extract); ok {
 					if lk, ok := ex.Tuple.(*ssa.Lookup); ok {
-						if g, ok := globalLoad(lk.X); ok && g.Name() == "mLogSlogLevelToLevel" && strip(lk.Index) == ssa.Value(fn.Params[0]) {
+						if g, ok := globalLoad(lk.X); ok && nm(g) == "mLogSlogLevelToLevel" && strip(lk.Index) == ssa.Value(fn.Params[0]) {
 							okTbl = true
 						}
 					}
@@ -161,13 +161,13 @@ func c15Handler(c *Ctx, p *Prog, m *Model) {
 			okLv := false
 			if ex, ok := lv.(*ssa.Extract); ok && ex.Index == 0 {
 				if lk, ok := ex.Tuple.(*ssa.Lookup); ok {
-					if g, ok := globalLoad(lk.X); ok && g.Name() == "mLogSlogLevelToLevel" && strip(lk.Index) == ssa.Value(en.Params[2]) {
+					if g, ok := globalLoad(lk.X); ok && nm(g) == "mLogSlogLevelToLevel" && strip(lk.Index) == ssa.Value(en.Params[2]) {
 						okLv = true
 					}
 				}
 			}
 			if call, ok := lv.(*ssa.Call); ok {
-				if cal := calleeOf(call); cal != nil && cal.Name() == "convertLogSlogLevel" && call.Common().Args[0] == ssa.Value(en.Params[2]) {
+				if cal := calleeOf(call); cal != nil && nm(cal) == "convertLogSlogLevel" && call.Common().Args[0] == ssa.Value(en.Params[2]) {
 					okLv = true
 				}
 			}
@@ -198,7 +198,7 @@ func c15Handler(c *Ctx, p *Prog, m *Model) {
 	{
 		var lvl ssa.Value
 		for _, cs := range callsIn(hd) {
-			if cal := calleeOf(cs); cal != nil && cal.Name() == "convertLogSlogLevel" {
+			if cal := calleeOf(cs); cal != nil && nm(cal) == "convertLogSlogLevel" {
 				lvl = cs.Value()
 				// argument is rec.Level
 				if !isRecField(cs.Common().Args[0], "Level") {
@@ -337,7 +337,7 @@ func c15Handler(c *Ctx, p *Prog, m *Model) {
 						continue
 					}
 					if !isAttrKey(cs.Common().Args[0], caf.Params[0]) {
-						r.Bad("R15.3", "convertAttrToField:key:"+cal.Name(), p.Pos(instrPos(cs)), "the converted attribute does not keep the log/slog attribute's key")
+						r.Bad("R15.3", "convertAttrToField:key:"+nm(cal), p.Pos(instrPos(cs)), "the converted attribute does not keep the log/slog attribute's key")
 					}
 				}
 			}
@@ -415,7 +415,7 @@ func c15Handler(c *Ctx, p *Prog, m *Model) {
 						freshBase = false
 					}
 					if call, ok := base.(*ssa.Call); ok {
-						if cal := calleeOf(call); cal != nil && (cal.Name() == "Clip" || cal.Name() == "Clone") {
+						if cal := calleeOf(call); cal != nil && (nm(cal) == "Clip" || nm(cal) == "Clone") {
 							hasOld = true
 						}
 					}
@@ -455,7 +455,7 @@ func c15Handler(c *Ctx, p *Prog, m *Model) {
 func isRecField(v ssa.Value, field string) bool {
 	b, st, f, ok := fieldLoad(strip(v))
 	_ = st
-	if !ok || f.Name() != field {
+	if !ok || nm(f) != field {
 		return false
 	}
 	return strings.HasSuffix(b.Type().String(), "log/slog.Record")
@@ -463,7 +463,7 @@ func isRecField(v ssa.Value, field string) bool {
 
 func isAttrKey(v ssa.Value, attr *ssa.Parameter) bool {
 	b, _, f, ok := fieldLoad(strip(v))
-	if !ok || f.Name() != "Key" {
+	if !ok || nm(f) != "Key" {
 		return false
 	}
 	// attr is a struct parameter spilled to a local
@@ -563,7 +563,7 @@ func c15Bridge(c *Ctx, p *Prog, m *Model) {
 	}
 	var pr ssa.CallInstruction
 	for _, cs := range callsIn(wr) {
-		if cal := calleeOf(cs); cal != nil && cal.Name() == "print" {
+		if cal := calleeOf(cs); cal != nil && nm(cal) == "print" {
 			pr = cs
 		}
 	}
@@ -615,7 +615,7 @@ func c15Bridge(c *Ctx, p *Prog, m *Model) {
 			lenG, nlG := false, false
 			for _, g := range guardsOf(blk) {
 				d := m.guardDesc(g)
-				if strings.HasPrefix(d, "T:len(param "+buf.Name()+") > 0") || strings.HasPrefix(d, "T:len(param "+buf.Name()+") != 0") {
+				if strings.HasPrefix(d, "T:len(param "+nm(buf)+") > 0") || strings.HasPrefix(d, "T:len(param "+nm(buf)+") != 0") {
 					lenG = true
 				}
 				cond, neg := normCond(g.If.Cond)
